@@ -5,6 +5,7 @@ import GBS.Model.SysGen
 import GBS.Model.FF
 import GBS.Model.Parse
 import GBS.Model.ReactGraph
+import GBS.Model.WellPosed
 /-! JSON codecs for the line protocol (driver only; not part of the verified model). -/
 open Lean
 namespace GBS.Driver
